@@ -1233,6 +1233,22 @@ class _Forward:
 
 
 # ---------------------------------------------------------------------------------------------------- small structural canonical forms
+class _FoldInt(ast.NodeTransformer):
+    """`3 + 1` -> `4` for integer literals (indices spelled relative to an unrolled loop variable)."""
+
+    def visit_BinOp(self, node: ast.BinOp):  # noqa: N802
+        self.generic_visit(node)
+        l, r = node.left, node.right
+        if isinstance(l, ast.Constant) and isinstance(r, ast.Constant) and type(l.value) is int and type(r.value) is int and isinstance(node.op, (ast.Add, ast.Sub, ast.Mult)):
+            v = l.value + r.value if isinstance(node.op, ast.Add) else l.value - r.value if isinstance(node.op, ast.Sub) else l.value * r.value
+            return ast.copy_location(ast.Constant(value=v), node)
+        return node
+
+
+def _fold_int_arith(node):
+    return ast.fix_missing_locations(_FoldInt().visit(node))
+
+
 def _unroll_literal_loops(mods: dict[str, Module], log: list[str]) -> None:
     """`for a, b in ((x1, y1), (x2, y2)): body` (a literal display of at most 8 items, no break/continue/else) is read as the unrolled statement sequence."""
     for mod in mods.values():
@@ -1255,6 +1271,12 @@ def _unroll_literal_loops(mods: dict[str, Module], log: list[str]) -> None:
                             kind_ = st.iter.func.attr
                             elts_ = [ast.Tuple(elts=[k, v], ctx=ast.Load()) if kind_ == "items" else (k if kind_ == "keys" else v) for k, v in zip(d_.keys, d_.values)]
                             st.iter = ast.copy_location(ast.Tuple(elts=elts_, ctx=ast.Load()), st.iter)
+                        # `range(a, b[, c])` over integer literals with at most 24 values is the display of those values
+                        if isinstance(st, ast.For) and isinstance(st.iter, ast.Call) and isinstance(st.iter.func, ast.Name) and st.iter.func.id == "range" and not st.iter.keywords \
+                                and 1 <= len(st.iter.args) <= 3 and all(isinstance(a, ast.Constant) and isinstance(a.value, int) and not isinstance(a.value, bool) for a in st.iter.args):
+                            vals_ = list(range(*[a.value for a in st.iter.args])) if not (len(st.iter.args) == 3 and st.iter.args[2].value == 0) else []
+                            if 1 <= len(vals_) <= 24:
+                                st.iter = ast.copy_location(ast.Tuple(elts=[ast.Constant(value=v_) for v_ in vals_], ctx=ast.Load()), st.iter)
                         # `zip(<display>, <display>)` / `enumerate(<display>)` of literal displays of equal length are the display of their item tuples
                         if isinstance(st, ast.For) and isinstance(st.iter, ast.Call) and isinstance(st.iter.func, ast.Name) and not st.iter.keywords:
                             fnm, za = st.iter.func.id, st.iter.args
@@ -1282,7 +1304,7 @@ def _unroll_literal_loops(mods: dict[str, Module], log: list[str]) -> None:
                                 for it in items:
                                     mapping = {names[0].id: it} if isinstance(tg, ast.Name) else {x.id: v for x, v in zip(names, it.elts)}
                                     sub = _Subst(mapping)
-                                    new.extend(sub.visit(_clone(s2)) for s2 in st.body)
+                                    new.extend(_fold_int_arith(sub.visit(_clone(s2))) for s2 in st.body)
                                 b[i:i + 1] = new
                                 log.append(f"{mod.relpath}:{st.lineno} {q}: loop over a literal display of {len(items)} item(s) unrolled")
                                 i += len(new)
@@ -1390,7 +1412,8 @@ def _split_parallel_assign(mods: dict[str, Module], log: list[str]) -> None:
                                 while isinstance(r, (ast.Attribute, ast.Subscript)):
                                     r = r.value
                                 roots.append((ast.unparse(t), r.id if isinstance(r, ast.Name) and not isinstance(t, ast.Name) else None))
-                            safe = all(_pure(v) for v in vs)
+                            # with plain local targets the order `x; y; a=; b=` and `x; a=; y; b=` cannot be told apart (y does not read a, checked below)
+                            safe = all(_pure(v) for v in vs) or all(isinstance(t, ast.Name) for t in tg)
                             for k, (ttxt, _) in enumerate(roots):
                                 for v in vs[k + 1:]:
                                     if any(ast.unparse(x) == ttxt for x in ast.walk(v) if isinstance(x, (ast.Name, ast.Attribute, ast.Subscript))):
@@ -1942,6 +1965,31 @@ def _see_through_value_memos(mods: dict[str, Module], inv: dict, log: list[str])
             holder[i] = ast.copy_location(ast.Assign(targets=rest, value=E), st) if rest else ast.copy_location(ast.Pass(), st)
             ast.fix_missing_locations(fn)
             log.append(f"{mod.relpath} {q}: value memo `{cname}[{ktext}]` read as `{ast.unparse(E)[:60]}` ({n_reads} read(s))")
+
+
+def _select_from_displays(mods: dict[str, Module], log: list[str]) -> None:
+    """`(a, b)[0]` with a literal index is `a` when the elements that are dropped are pure (typically a tuple-returning helper read in place)."""
+    n = 0
+
+    class T(ast.NodeTransformer):
+        def visit_Subscript(self, node: ast.Subscript):  # noqa: N802
+            nonlocal n
+            self.generic_visit(node)
+            if isinstance(node.ctx, ast.Load) and isinstance(node.value, (ast.Tuple, ast.List)) and isinstance(node.slice, ast.Constant) and isinstance(node.slice.value, int) \
+                    and not isinstance(node.slice.value, bool) and -len(node.value.elts) <= node.slice.value < len(node.value.elts) \
+                    and not any(isinstance(x, ast.Starred) for x in node.value.elts):
+                k = node.slice.value % len(node.value.elts)
+                rest = [x for i, x in enumerate(node.value.elts) if i != k]
+                if all(_pure(x) for x in rest):
+                    n += 1
+                    return ast.copy_location(node.value.elts[k], node)
+            return node
+    for mod in mods.values():
+        for q, _, fn in _functions_of(mod):
+            T().visit(fn)
+            ast.fix_missing_locations(fn)
+    if n:
+        log.append(f"{n} constant selection(s) from a tuple display reduced")
 
 
 def _apply_partials(mods: dict[str, Module], log: list[str]) -> None:
@@ -2630,6 +2678,7 @@ def canonicalise(mods: dict[str, Module]) -> dict:
         inl.log.extend(inl2.log)
         _scalarise_records(mods, inv, fwd_log)
     _apply_partials(mods, fwd_log)
+    _select_from_displays(mods, fwd_log)
     _unroll_literal_loops(mods, fwd_log)
     _unroll_literal_comprehensions(mods, fwd_log)
     _static_attr_access(mods, fwd_log)
